@@ -92,8 +92,8 @@ func (fx *fnExec) dynCallHooks(name string, args []Val, st *State, pos token.Pos
 		if a.Callee != name {
 			continue
 		}
-		fx.callCount["assert:"+a.Callee]++
-		if a.Nth != 0 && a.Nth != fx.callCount["assert:"+a.Callee] {
+		fx.callCount[fmt.Sprintf("assert:%d:%s", i, a.Callee)]++
+		if a.Nth != 0 && a.Nth != fx.callCount[fmt.Sprintf("assert:%d:%s", i, a.Callee)] {
 			continue
 		}
 		env := fx.specEnv(st, fx.entry, nil)
@@ -101,6 +101,6 @@ func (fx *fnExec) dynCallHooks(name string, args []Val, st *State, pos token.Pos
 			env.vars[fmt.Sprintf("$%d", j)] = args[j]
 		}
 		t := env.evalBool(a.Cond)
-		fx.oblige(fmt.Sprintf("assertcall.%s.%d#%d", a.Callee, i+1, fx.callCount["assert:"+a.Callee]), "assertcall", st, t, pos, a.Cond.Src)
+		fx.oblige(fmt.Sprintf("assertcall.%s.%d#%d", a.Callee, i+1, fx.callCount[fmt.Sprintf("assert:%d:%s", i, a.Callee)]), "assertcall", st, t, pos, a.Cond.Src)
 	}
 }
